@@ -116,7 +116,9 @@ impl<'tcx> Cx<'tcx> {
             _ => {}
         }
         if let ty::FnDef(did, args) = ty.kind() {
-            let _ = write!(s, ",\"fn\":{}", esc(&self.tcx.def_path_str_with_args(*did, args)));
+            let _ = write!(s, ",\"fn\":{},\"fn_def\":{}", esc(&self.tcx.def_path_str_with_args(*did, args)), esc(&self.tcx.def_path_str(*did)));
+            let gas: Vec<String> = args.iter().map(|a| esc(&format!("{}", a))).collect();
+            let _ = write!(s, ",\"fn_gargs\":[{}]", gas.join(","));
         }
         // scalar value
         if ty.is_integral() || ty.is_bool() || ty.is_char() {
@@ -194,6 +196,22 @@ impl<'tcx> Cx<'tcx> {
                 }
                 let _ = write!(s, ",\"item\":{}", esc(&tcx.item_name(did).to_string()));
             }
+        }
+        // generic type parameters in scope (own + parents)
+        {
+            let mut groups: Vec<Vec<String>> = vec![];
+            let mut g = Some(tcx.generics_of(did));
+            while let Some(gen) = g {
+                let mut own = vec![];
+                for p in &gen.own_params {
+                    if matches!(p.kind, ty::GenericParamDefKind::Type { .. }) { own.push(esc(&p.name.to_string())); }
+                }
+                groups.push(own);
+                g = gen.parent.map(|p| tcx.generics_of(p));
+            }
+            groups.reverse();
+            let names: Vec<String> = groups.into_iter().flatten().collect();
+            let _ = write!(s, ",\"generics\":[{}]", names.join(","));
         }
         // locals
         s.push_str(",\"locals\":[");
